@@ -48,8 +48,11 @@ def check(tier, seed, replay=None):
         argv = base_cases[i]["argv"]
         faults = p.get("faults")
         if faults is None:
-            # with --take the input is not read to its end, so only write faults are injected there (C14 has the reading side)
-            faults = ([("r", k) for k in range(len(data) + 1)] if p["mode"] not in RL.LIMITED else []) + \
+            # with --take the input is not read to its end: whether a failing read is met at all is what the Run machine says (it has the
+            # --skip / --take counters and the Break since round 8); where the machine does not follow the run exactly (diagnostics on stdout)
+            # only write faults are injected.  A sorter in front of the limiter reads everything.
+            reads = p["mode"] not in RL.LIMITED or p["mode"] == "sorttake" or p["policy"] != "stdout"
+            faults = ([("r", k) for k in range(len(data) + 1)] if reads else []) + \
                      [("w", k) for k in range(len(bytes.fromhex(bobs[i]["out"])) + 1)]
         for kind, k in faults:
             c = {"id": len(cases), "argv": argv, "stdin": p["stdin"]}
